@@ -38,6 +38,9 @@ class Service(object):
     self._rec('add', a, b)
     return a + b
 
+  def notify(self, s):
+    self._rec('notify', s)
+
   def tail(self, s):
     self._rec('tail', s)
     return s.split(':', 1)[1] if ':' in s else ''     # may well be the empty string
